@@ -82,7 +82,7 @@ func (v *Vue) evalAttributes(ctx VueContext, n *html.Node) (map[string]any, erro
 			if attrName == "style" {
 				// Merge styles, with bound value taking precedence
 				staticStyle := newAttrs[staticIdx].Val
-				mergedStyle := v.mergeStyles(staticStyle, boundValue.(string))
+				mergedStyle := v.mergeStyles(staticStyle, fmt.Sprint(boundValue))
 				newAttrs[staticIdx].Val = mergedStyle
 				continue
 			}
